@@ -339,7 +339,7 @@ def _async_run_single_stage(
       for worker, state in copy.copy(iterating).items():
         if state.done():
           del iterating[worker]
-          worker.release()
+          worker.release(worker_pool)
           if exc := state.exception():
             logging.exception(
                 'chainable: %s',
